@@ -100,7 +100,10 @@ def invariants (pre post : List Cell) (cls : Nat → Ledger) (exemptMort : Bool)
       else if a.nonNeg && a.totalsOK && a.infectedLeTotal && !b.infectedLeTotal then
         some s!"PROPFAIL C02 infected_le_total cell={k} post={showCell b}" else none),
     first (fun k a b => if a.totalsOK && !b.totalsOK then some s!"PROPFAIL C03 totals cell={k} pre={showCell a} post={showCell b}"
-      else if !exemptMort && a.mortOK && !b.mortOK then some s!"PROPFAIL C03 mortality_cohorts cell={k} pre={showCell a} post={showCell b}" else none)
+      else if !exemptMort && a.mortOK && !b.mortOK then some s!"PROPFAIL C03 mortality_cohorts cell={k} pre={showCell a} post={showCell b}" else none),
+    -- C05: every exposed host sits in a cohort (a host counted as exposed but held by no cohort can never mature)
+    first (fun k a b => if !a.e.isEmpty && decide (a.te = sumL a.e) && !decide (b.te = sumL b.e) then
+      some s!"PROPFAIL C05 exposed_host_without_cohort cell={k} pre={showCell a} post={showCell b}" else none)
   ].filterMap id
   if verdicts.isEmpty then none else some (" ;; ".intercalate verdicts)
 
@@ -896,7 +899,10 @@ def handle (st : State) (cmd : String) (inp obsToks : List String) : State × St
           if toString cursor ≠ newLast then finish st o s!"PROPFAIL C17 movement_once cursor={newLast} expected={cursor}"
           else if total post != total pre then finish st o s!"PROPFAIL C01 movement_relocates_only before={total pre} after={total post}"
           else if pre.all Cell.nonNeg && !(post.all Cell.nonNeg) then finish st o "PROPFAIL C02 nonneg movement"
-          else if pre.all Cell.totalsOK && !(post.all Cell.totalsOK) then finish st o "PROPFAIL C03 totals movement"
+          else if pre.all Cell.totalsOK && !(post.all Cell.totalsOK) then
+            finish st o ("PROPFAIL C03 totals movement" ++
+              (if pre.all (fun c => decide (c.te = sumL c.e)) && !(post.all fun c => decide (c.te = sumL c.e)) then
+                 " ;; PROPFAIL C05 exposed_host_without_cohort movement (hosts move together with their cohort membership)" else ""))
           else if pre.all (fun c => c.mortOK && c.totalsOK) && !(post.all Cell.mortOK) then finish st o "PROPFAIL C03 mortality_cohorts movement"
           else
             match apply with
